@@ -17,7 +17,14 @@ use std::time::Duration;
 fn generate(ctx: &Ctx, n: usize, via_file: bool, tag: &str) -> Result<String, String> {
     let dir = ctx.fresh_dir(&format!("c15-{}", tag));
     let _ = std::fs::create_dir_all(&dir);
-    let mut args = vec!["-n".to_string(), n.to_string()];
+    // every accepted spelling of the option
+    let mut args: Vec<String> = match (n + via_file as usize) % 5 {
+        0 => vec![format!("-n{}", n)],
+        1 => vec![format!("-n={}", n)],
+        2 => vec![format!("--queens={}", n)],
+        3 => vec!["--queens".to_string(), n.to_string()],
+        _ => vec!["-n".to_string(), n.to_string()],
+    };
     let file = dir.join(super::common::hostile_file_name(n, "queens.txt"));
     if via_file {
         // the output file already exists and is longer than what will be written
